@@ -7,7 +7,7 @@ import os
 from . import common
 
 KNOWN_PATH = os.path.join(common.VERIF, "known_findings.json")
-REPLAY_DIR = os.path.join(common.VERIF, "replays")
+REPLAY_DIR = os.environ.get("TFMC_REPLAY_DIR") or os.path.join(common.VERIF, "replays")
 
 
 def load_known():
